@@ -20,6 +20,13 @@ K06 = [
     # non-ASCII characters inside the call (ast columns count bytes, rope's text offsets count characters)
     (Skeleton("g06_non_ascii_arguments", {
         "main.py": "def target({0}, {1}=10):\n    return ({0}, {1})\n{2} = 1\nprint(target('\u00e9', {2}), target({2}, {1}='\u00fc'), target('\u00df' + 'x'))\n"}), "main.py", "target"),
+    # keyword-only parameter in the definition; calls that spread a tuple / a dict
+    (Skeleton("g07_keyword_only_parameter", {
+        "main.py": "def target({0}, *, {1}=2):\n    return ({0}, {1})\n{2} = 1\nprint(target({2}), target({2}, {1}=3))\n"}), "main.py", "target"),
+    (Skeleton("g08_call_spreads_a_tuple", {
+        "main.py": "def target({0}, {1}=10):\n    return ({0}, {1})\n{2} = (1, 2)\nprint(target(*{2}), target(3, 4))\n"}), "main.py", "target"),
+    (Skeleton("g09_call_spreads_a_dict", {
+        "main.py": "def target({0}, {1}=10):\n    return ({0}, {1})\n{2} = dict({1}=2)\nprint(target(1, **{2}), target(3, 4))\n"}), "main.py", "target"),
     # the method is inherited: called on instances of a subclass that does not override it
     (Skeleton("g05_method_inherited", {
         "main.py": "class Base:\n    def meth(self, {0}, {1}=4):\n        return ({0}, {1})\nclass Sub(Base):\n    def other(self, {2}):\n        return self.meth({2}, {1}=6)\n{3} = Sub()\nprint({3}.meth(5), {3}.meth({0}=6, {1}=7), {3}.other(1), Sub().meth(8, 9), Base().meth(1))\n"}), "main.py", "meth"),
